@@ -10,7 +10,7 @@ use serde_json::json;
 
 pub struct Sem(pub Which);
 
-const SPACE: &str = "Program space: every program produced by type-directed enumeration up to the size bound (see C05), its variants with each single annotation omitted or replaced by `_` and with all annotations omitted; every closed fully annotated term up to the node bound over a small alphabet (pre-screened by the reference for divergent pieces); the alias family (groups of type aliases in every order, annotated and not); ";
+const SPACE: &str = "Program space: every program produced by type-directed enumeration up to the size bound (see C05), its variants with each single annotation omitted or replaced by `_` and with all annotations omitted; every closed fully annotated term up to the node bound over a small alphabet (pre-screened by the reference for divergent pieces); the alias family (groups of type aliases in every order, annotated and not); the value-boundary family (groups of two and three members, each a literal, an almost-literal such as -1 or (1), a computed term, an alias / negation / sum / call of another member, or a function); for C01, C03 and C04 the type-pair family; and, for every accepted program whose reported type is a function type over a simple domain (int, bool, type and non-dependent function types over them), the program applied to closed arguments of that domain, `(P) a` and `((P) a) b` (elimination contexts: two arguments per base type, so that both branches of a test are taken; arguments for which the reference does not bring the instance of the codomain to weak-head normal form are left out); ";
 
 impl Prop for Sem {
     fn id(&self) -> &'static str {
@@ -51,7 +51,7 @@ impl Prop for Sem {
             },
             Which::C02 => EvidenceSpec {
                 level: "model_checking",
-                rule: "Operand sweep: every one of the 9 binary operators and negation on every ordered pair of 19 boundary integers (0, +-1, +-2, +-3, +-7, +-2^31, +-(2^63-1), +-2^63, +-2^64, +-10^30; negative operands spelled both -n and 0 - n), expected results computed by the reference (division specified by its defining identity); factorial, Fibonacci, even/odd mutual recursion, accumulator recursion, higher-order `twice`, Ackermann for small arguments, evaluation-order probes in which only the prescribed order avoids a division by zero or a loop, 60 groups of four definitions with every subset of members named `_`, the repository's terminating examples; every sentence of the arithmetic / comparison sub-grammar over literals up to 11/12 tokens (all nine operators, negation, parentheses; distinct literal values by position; prescribed value = the reference interpreter on the tree grammar.y assigns, ill-typed sentences must be rejected); every type-directed program, the alias family and the type-valued groups. States = terms reached by the real `step`; in every visited state the reference interpreter started from that state must produce the same outcome as from the source program (semantic invariance), and the final value must be the prescribed one. non-trivial = programs whose ground value was compared".to_owned(),
+                rule: "Operand sweep: every one of the 9 binary operators and negation on every ordered pair of 19 boundary integers, each pair also with the right operand, the left operand and both operands still to be computed when the operator is reached (`a op (b + 0)`, `(1 * a) op b`, a conditional and a call), (0, +-1, +-2, +-3, +-7, +-2^31, +-(2^63-1), +-2^63, +-2^64, +-10^30; negative operands spelled both -n and 0 - n), expected results computed by the reference (division specified by its defining identity); factorial, Fibonacci, even/odd mutual recursion, accumulator recursion, higher-order `twice`, Ackermann for small arguments, evaluation-order probes in which only the prescribed order avoids a division by zero or a loop, 60 groups of four definitions with every subset of members named `_`, the repository's terminating examples; every sentence of the arithmetic / comparison sub-grammar over literals up to 11/12 tokens (all nine operators, negation, parentheses; distinct literal values by position; prescribed value = the reference interpreter on the tree grammar.y assigns, ill-typed sentences must be rejected); every type-directed program, the alias family and the type-valued groups. States = terms reached by the real `step`; in every visited state the reference interpreter started from that state must produce the same outcome as from the source program (semantic invariance), and the final value must be the prescribed one. non-trivial = programs whose ground value was compared".to_owned(),
                 assumptions: base_assumptions,
                 evaluations: "evaluations",
                 nontrivial: "nontrivial",
